@@ -34,8 +34,8 @@ def Prims.toy : Prims where
   aesDec := fun _ b => b
 
 theorem Prims.toy_lawful : LawfulPrims Prims.toy where
-  sha1_len := by intro x; simp [Prims.toy]; omega
-  sha256_len := by intro x; simp [Prims.toy]; omega
+  sha1_len := by intro x; simp [Prims.toy]
+  sha256_len := by intro x; simp [Prims.toy]
   aesEnc_len := by intro _ b h; simpa [Prims.toy] using h
   aesDec_len := by intro _ b h; simpa [Prims.toy] using h
   aes_dec_enc := by intro _ b _; rfl
